@@ -557,8 +557,8 @@ def inprocess(ctx, hs, B, small, bx):
                     continue
                 scen.append(sc)
                 ncorpus += 1
-    n_small = 1500 if quick else 40000
-    n_big = 25 if quick else 500
+    n_small = 2500 if quick else 60000
+    n_big = 30 if quick else 700
     for _ in range(n_small):
         scen.append(gen_readat(rng, False))
         scen.append(gen_writeat(rng, False))
